@@ -818,8 +818,14 @@ func main() {
 		// (family "free": no replay against Cache.tla, which has no partial writes).
 		tornIndexRun = true
 		defer func() { res.Count("torn_entry_read_back_with_stale_size (not demanded by the statement)", atomic.LoadInt64(&staleSizeSeen)) }()
-		for _, pair := range [][2]string{{"c0", "c2"}, {"c2", "c0"}, {"c3", "c1"}, {"c1", "c1"}} {
-			for k := 1; k < 167; k++ {
+		var pairs [][2]string
+		for _, a := range contentNames {
+			for _, b := range contentNames {
+				pairs = append(pairs, [2]string{a, b})
+			}
+		}
+		for _, pair := range pairs {
+			for k := 1; k < 175; k++ { // the entry has 175 bytes (spec/cache/IndexTear.tla)
 				cfg := Config{Start: "empty", Prog: Prog{"w1": {{Op: "put", ID: "i1", C: pair[0], Rd: "same"}, {Op: "put", ID: "i1", C: pair[1], Rd: "same"}}, "w2": {}, "r1": {}}}
 				rec := runOne("free", "tear", cfg, &vsched.Replay{}, &Inject{Actor: "w1", N: 2, Kind: "tear", K: k})
 				col.add(rec)
